@@ -163,3 +163,132 @@ pub fn instantiate(max_free: usize) -> Vec<(usize, String)> {
 pub fn program(stmt: &str) -> String {
     format!("{}{}\n{}", HEADER, stmt, FOOTER)
 }
+
+// ---------------------------------------------------------------------------
+// Statement soups: every sequence of up to n statements from a menu of simple
+// statements (assignments, jumps, labels, handlers, one-line loops, file I/O).
+// ---------------------------------------------------------------------------
+
+pub const SOUP_STATEMENTS: &[&str] = &[
+    "X = X + 1",
+    "PRINT X",
+    "GOTO L1",
+    "GOSUB L1",
+    "RETURN",
+    "L1:",
+    "L2:",
+    "ON ERROR GOTO L1",
+    "ON ERROR GOTO L2",
+    "ON ERROR GOTO 0",
+    "ON ERROR RESUME NEXT",
+    "RESUME",
+    "RESUME NEXT",
+    "RESUME L2",
+    "X = 1 / 0",
+    "END",
+    "A(9) = 1",
+    "P X",
+    "Y = F(X)",
+    "IF X < 3 THEN GOTO L1",
+    "FOR I = 1 TO 2: X = X + 1: NEXT",
+    "WHILE X < 2: X = X + 1: WEND",
+    "SELECT CASE X: CASE 1: PRINT 1: CASE ELSE: END SELECT",
+    "READ X",
+    "DATA 7",
+    "OPEN \"f.txt\" FOR OUTPUT AS #1",
+    "PRINT #1, X",
+    "CLOSE",
+    "OPEN \"g.txt\" FOR INPUT AS #1",
+    "INPUT #1, X",
+];
+
+pub const SOUP_HEADER: &str = "DIM A(3)\n";
+pub const SOUP_FOOTER: &str = "END\nFUNCTION F (N)\n  F = N + 1\nEND FUNCTION\nSUB P (N)\n  N = N + 1\nEND SUB\n";
+
+pub fn statement_soups(max_len: usize, menu: usize) -> Vec<String> {
+    let menu = menu.min(SOUP_STATEMENTS.len());
+    let mut out = vec![];
+    for len in 1..=max_len {
+        let mut idx = vec![0usize; len];
+        'outer: loop {
+            let mut s = String::from(SOUP_HEADER);
+            let mut labels = [false; 2];
+            for i in &idx {
+                let st = SOUP_STATEMENTS[*i];
+                if st == "L1:" {
+                    labels[0] = true;
+                }
+                if st == "L2:" {
+                    labels[1] = true;
+                }
+                s.push_str(st);
+                s.push('\n');
+            }
+            s.push_str(SOUP_FOOTER);
+            // labels that are referenced but not defined get a definition after END
+            if !labels[0] && s.contains("L1") {
+                s.push_str("L1:\nPRINT \"h1\"\nRESUME NEXT\n");
+            }
+            if !labels[1] && s.contains("L2") {
+                s.push_str("L2:\nPRINT \"h2\"\n");
+            }
+            out.push(s);
+            let mut k = len;
+            loop {
+                if k == 0 {
+                    break 'outer;
+                }
+                k -= 1;
+                idx[k] += 1;
+                if idx[k] < menu {
+                    break;
+                }
+                idx[k] = 0;
+            }
+        }
+    }
+    out
+}
+
+// ---------------------------------------------------------------------------
+// Block skeletons: every block construct with each optional part present or
+// absent and each body empty, a comment, or one statement; nested to depth 2.
+// ---------------------------------------------------------------------------
+
+fn bodies(depth: usize) -> Vec<String> {
+    let mut v = vec![String::new(), "' c\n".to_string(), "PRINT 1\n".to_string()];
+    if depth > 0 {
+        v.extend(block_skeletons(depth - 1));
+    }
+    v
+}
+
+pub fn block_skeletons(depth: usize) -> Vec<String> {
+    let b = bodies(depth);
+    // for the two-body constructs only the plain bodies are combined with everything
+    let plain: Vec<String> = vec![String::new(), "' c\n".to_string(), "PRINT 1\n".to_string()];
+    let mut out = vec![];
+    for x in &b {
+        out.push(format!("IF X THEN\n{}END IF\n", x));
+        out.push(format!("WHILE X < 0\n{}WEND\n", x));
+        out.push(format!("DO WHILE X < 0\n{}LOOP\n", x));
+        out.push(format!("DO\n{}LOOP UNTIL X = 0\n", x));
+        out.push(format!("FOR I = 1 TO 2\n{}NEXT\n", x));
+        out.push(format!("FOR I = 2 TO 1 STEP -1\n{}NEXT I\n", x));
+        out.push(format!("SELECT CASE X\nCASE 0\n{}END SELECT\n", x));
+        out.push(format!("SELECT CASE X\nCASE ELSE\n{}END SELECT\n", x));
+        out.push(format!("SELECT CASE X\n{}END SELECT\n", if x.starts_with('\'') { x.as_str() } else { "" }));
+        for y in &plain {
+            out.push(format!("IF X THEN\n{}ELSE\n{}END IF\n", x, y));
+            out.push(format!("IF X THEN\n{}ELSE\n{}END IF\n", y, x));
+            out.push(format!("IF X THEN\n{}ELSEIF X = 0 THEN\n{}END IF\n", y, x));
+            out.push(format!("IF X THEN\n{}ELSEIF X = 1 THEN\n{}ELSEIF X = 0 THEN\n{}ELSE\n{}END IF\n", y, y, x, y));
+            out.push(format!("SELECT CASE X\nCASE 1\n{}CASE ELSE\n{}END SELECT\n", y, x));
+            out.push(format!("SELECT CASE X\nCASE 1\n{}CASE ELSE\n{}END SELECT\n", x, y));
+            out.push(format!("SELECT CASE X\nCASE 1, 2\n{}CASE IS > 5\n{}CASE 0 TO 0\n{}END SELECT\n", y, y, x));
+        }
+    }
+    out.sort();
+    out.dedup();
+    out
+}
